@@ -9,7 +9,8 @@ ID = 'C20'
 RULE = ('alternatives are enumerated from EnglishChoice.TrueRegex / FalseRegex (word alternation + emoji written as single code points); '
         'exhaustive part: every alternative x 4 letter-case variants x 40 fixed surroundings; Hypothesis part: random per-letter case, '
         'blanks/punctuation/filler words around, several blanks inside "not ok", neutral strings from a closed pool, strings with both '
-        'polarities; non-trivial = alternative not at position 0, or mixed/upper case, or both polarities present; distinct = distinct query')
+        'polarities; every case under one of the English culture codes en-us, en-gb, en-au, en-in, en-ca, EN-US, en (all are served the English lists); '
+        'non-trivial = alternative not at position 0, or mixed/upper case, or both polarities present; distinct = distinct (culture code, query)')
 ASSUMPTIONS = ['filler words are a static list containing no alternative as a token',
                'the emoji alternatives are those the Python regex can match as single code points (U+1F44C, U+1F44E, U+1F590, U+270B)']
 
@@ -43,10 +44,13 @@ def alternatives():
     return out
 
 
-def recognise(q):
+ENGLISH_CODES = ['en-us', 'en-us', 'en-gb', 'en-us', 'en-au', 'EN-US', 'en-in', 'en-ca', 'en']    # every English code is served the English lists
+
+
+def recognise(q, culture='en-us'):
     from recognizers_choice import recognize_boolean
     return [{'text': r.text, 'start': r.start, 'end': r.end, 'type': r.type_name, 'value': (r.resolution or {}).get('value'),
-             'score': (r.resolution or {}).get('score')} for r in recognize_boolean(q, 'en-us')]
+             'score': (r.resolution or {}).get('score')} for r in recognize_boolean(q, culture)]
 
 
 def norm(s):
@@ -62,7 +66,7 @@ def run_single(case):
     """one alternative, written out as case['written'], between pre and post."""
     q = case['pre'] + case['written'] + case['post']
     pos = len(case['pre'])
-    got = recognise(q)
+    got = recognise(q, case.get('culture', 'en-us'))
     vs = []
     pol = case['polarity']
     ok = (len(got) == 1 and got[0]['start'] == pos and got[0]['end'] == pos + len(case['written']) - 1 and got[0]['value'] is pol and
@@ -76,21 +80,21 @@ def run_single(case):
             vs.append(V('SCORE_RANGE', {'query': q, 'got': g}, bucket='SCORE'))
     w = case['written']
     return R(vs, nontrivial=pos > 0 or (w != w.lower()), labels=['single', 'pol:%s' % pol, 'case:' + case.get('style', '-')],
-             obs={'query': q, 'entities': got}, key=q)
+             obs={'query': q, 'culture': case.get('culture', 'en-us'), 'entities': got}, key=[case.get('culture', 'en-us'), q])
 
 
 def run_neutral(case):
     q = case['q']
-    got = recognise(q)
+    got = recognise(q, case.get('culture', 'en-us'))
     vs = []
     if got:
         vs.append(V('NEUTRAL_RECOGNISED', {'query': q, 'got': got}, bucket='NEUTRAL'))
-    return R(vs, nontrivial=q.strip() != '', labels=['neutral'], obs={'query': q, 'entities': got}, key=q)
+    return R(vs, nontrivial=q.strip() != '', labels=['neutral'], obs={'query': q, 'culture': case.get('culture', 'en-us'), 'entities': got}, key=[case.get('culture', 'en-us'), q])
 
 
 def run_both(case):
     q = case['q']
-    got = recognise(q)
+    got = recognise(q, case.get('culture', 'en-us'))
     alts = {norm(a): p for a, p in alternatives()}
     vs = []
     if len(got) != 1:
@@ -104,7 +108,7 @@ def run_both(case):
             vs.append(V('WRONG_SPAN', {'query': q, 'got': g}, bucket='BOTH:span'))
         if not score_ok(g):
             vs.append(V('SCORE_RANGE', {'query': q, 'got': g}, bucket='SCORE'))
-    return R(vs, nontrivial=True, labels=['both'], obs={'query': q, 'entities': got}, key=q)
+    return R(vs, nontrivial=True, labels=['both'], obs={'query': q, 'culture': case.get('culture', 'en-us'), 'entities': got}, key=[case.get('culture', 'en-us'), q])
 
 
 PREDICATES = {'c20_raised_hand': lambda case, v: case.get('alt') == '\u270b'}
@@ -127,7 +131,8 @@ def exhaustive_cases():
             if written == alt and style != 'lower':
                 continue
             for pre, post in SURROUND[:40] if len(alt) > 1 else SURROUND[:40]:
-                out.append({'alt': alt, 'polarity': pol, 'written': written, 'pre': pre, 'post': post, 'style': style})
+                out.append({'alt': alt, 'polarity': pol, 'written': written, 'pre': pre, 'post': post, 'style': style,
+                            'culture': ENGLISH_CODES[len(out) % len(ENGLISH_CODES)]})
     return out
 
 
@@ -168,7 +173,7 @@ def random_cases():
         return {'both': True, 'q': glue(pre_words, [' ']) + a + ' ' + ' '.join(mid + [b])}
     boths = st.builds(both, st.sampled_from(trues), st.sampled_from(falses), st.booleans(), st.lists(st.sampled_from(fillers), max_size=2),
                       filler_seq)
-    return st.one_of(singles, singles, neutral, boths)
+    return st.builds(lambda c, cu: dict(c, culture=cu), st.one_of(singles, singles, neutral, boths), st.sampled_from(ENGLISH_CODES))
 
 
 def parts(tier, seed):
